@@ -124,6 +124,19 @@ def refused_user_sessions():
     return out
 
 
+def slow_logout_sessions():
+    """The logout notification of the account being left takes a few loop iterations; PASS arrives meanwhile - with the password
+    of the old account, of the new one, or a wrong one.  It never logs the session in as the new account."""
+    out = []
+    tail = [["tick", 0], ["send", 1, "PWD"], ["send", 1, "MLST f"], ["send", 1, "MKD zz"], ["send", 1, "PASS pw3"], ["send", 1, "PWD"]]
+    for pre in ([["send", 1, "USER u1"], ["send", 1, "PASS pw1"]], [["send", 1, "USER u1"]], [["send", 1, "USER u2"]]):
+        for y in ("u3", "u1", "u2", "nobody"):
+            for pw in ("pw1", "pw3", "nope"):
+                for gap in (0, 1, 2, 4):
+                    out.append([["connect", 1]] + pre + [["nq", ["send", 1, "USER " + y]], ["iter", gap], ["nq", ["send", 1, "PASS " + pw]]] + tail)
+    return out
+
+
 def overtaken_by_user():
     """A path command is suspended in its j-th backend call when USER arrives and is answered at once (any backend that really
     awaits makes room for this).  The command was read under the old login: it may finish there or be refused, but what it does must
@@ -183,6 +196,9 @@ def run(tier, seed):
                            label="slow-user:" + tag)
     corecheck.validate(chk, gen.std_cfg(ns=1, users=SLOW_USERS, slow_user={"*": 2}, slow_auth=3), gen.STD_TREE, sl + su[::3], label="slow-both")
     corecheck.validate(chk, gen.std_cfg(ns=2, users=LIMITED_USERS), gen.STD_TREE, refused_user_sessions(), label="refused-user")
+    lo = slow_logout_sessions()
+    for k in (3, 7):
+        corecheck.validate(chk, gen.std_cfg(ns=1, users=SLOW_USERS, slow_logout=k), gen.STD_TREE, lo if tier != "quick" else lo[::2], label="slow-logout:%d" % k)
     ou = overtaken_by_user()
     for b in ("memory", "async"):
         corecheck.validate(chk, gen.std_cfg(ns=1, backend=b), gen.STD_TREE, ou if tier != "quick" else ou[::2], label="overtaken-by-user:" + b)
